@@ -87,7 +87,17 @@ type Issue struct {
 	Gen         int
 	// description at the end of each generation (ground truth for the oracle)
 	DescriptionAtGen map[int]string
+	// Plan is the targeted label history of the issue (generator bookkeeping, not on the wire):
+	// PlanDropLabelsInGrowth = the issue ends its first generation with exactly one label, which is
+	// removed in the next generation (label set empty again between two import rounds).
+	Plan string
 }
+
+// Targeted label histories (see Issue.Plan and genIssue).
+const (
+	PlanDropLabelsInGrowth = "one-label-then-removed-in-growth"
+	PlanEmptiedAtOnce      = "labels-added-and-removed-within-one-generation"
+)
 
 // IDSpace configures the id sequences. Real GitLab has one sequence per table
 // (notes, resource_label_events, resource_state_events, issues) and per-project
@@ -102,6 +112,7 @@ type Tracker struct {
 	mu sync.Mutex
 
 	ProjectID int
+	Index     int    // index of the generated tracker (selects the targeted histories)
 	Path      string // path_with_namespace
 	Token     string
 	TokenUser int
@@ -273,6 +284,27 @@ func (t *Tracker) ToggleLabel(is *Issue, user int, label string) *LabelEvent {
 	is.LabelEvents = append(is.LabelEvents, e)
 	t.touch(is)
 	return e
+}
+
+// ClearLabels removes every label the issue carries (one remove event per label, all with the
+// current timestamp: GitLab records the label changes of one request with one timestamp).
+func (t *Tracker) ClearLabels(is *Issue, user int, keep int) int {
+	n := 0
+	for len(is.Labels) > keep {
+		t.ToggleLabel(is, user, is.Labels[len(is.Labels)-1])
+		n++
+	}
+	return n
+}
+
+// HasLabelEventsIn says whether the issue has a label event of generation gen.
+func (is *Issue) HasLabelEventsIn(gen int) bool {
+	for _, e := range is.LabelEvents {
+		if e.Gen == gen {
+			return true
+		}
+	}
+	return false
 }
 
 // ToggleState closes an open issue / reopens a closed one. oldStyle = the
@@ -792,6 +824,10 @@ type Params struct {
 	GrowAct    int  `json:"grow_actions"` // actions per touched / new issue in the growth generation
 	// CtlTitles: issue titles may contain control characters (tab, BEL, ESC, DEL)
 	CtlTitles bool `json:"ctl_titles"`
+	// C1Texts: the first issue of the tracker carries, in every place the importer takes text from
+	// (title, description, comment, title change, label name), a one-line text whose only control
+	// characters are C1 controls (U+0080..U+009F). The other trackers get such texts by chance.
+	C1Texts bool `json:"c1_texts,omitempty"`
 }
 
 var hostileTitles = []string{
@@ -806,6 +842,9 @@ var hostileTitles = []string{
 	"  padded title  ",
 	"**bold** title",
 	"title {+ with +} and {- both -} markers",
+	// C1 control characters (U+0080..U+009F) and no other control character: one line, no C0 byte
+	"nel\u0085in a title \u009b31mcsi",
+	"\u0090c1 at the edges and in\u0085side\u009f",
 }
 
 // ctlTitle is only used when Params.CtlTitles is set.
@@ -837,7 +876,9 @@ func (is *Issue) HasControlCharTitleChange() bool {
 	return false
 }
 
-var labelNames = []string{"bug", "feature request", "prio::high", "ze\u200bro", "rtl\u202ex", "\"quoted\"", "tab\there", "UPPER", "a ** to ** b", "{+plus+}"}
+var labelNames = []string{"bug", "feature request", "prio::high", "ze\u200bro", "rtl\u202ex", "\"quoted\"", "tab\there", "UPPER", "a ** to ** b", "{+plus+}",
+	// C1 control characters only (no C0 control character)
+	"nel\u0085label", "\u009bcsi label\u009c"}
 
 var ignoredNotes = []string{
 	"assigned to @alice", "unassigned @alice", "changed milestone to %1", "removed milestone",
@@ -855,12 +896,28 @@ func marker(rng *rand.Rand) string {
 	return "m" + string(b)
 }
 
+// OnlyC1Controls says whether the text holds C1 control characters (U+0080..U+009F) and no
+// other control character at all (no C0 character - so no newline, CR or tab either - and no
+// DEL): a one-line text whose only unprintable characters are encoded as two bytes >= 0x80.
+func OnlyC1Controls(s string) bool {
+	c1 := false
+	for _, r := range s {
+		switch {
+		case r < 0x20 || r == 0x7f:
+			return false
+		case r >= 0x80 && r < 0xa0:
+			c1 = true
+		}
+	}
+	return c1
+}
+
 // HostileText produces a body; kind is returned for evidence.
 func HostileText(rng *rand.Rand, big bool) (string, string) {
 	m := marker(rng)
-	n := 11
+	n := 13
 	if big {
-		n = 12
+		n = 14
 	}
 	switch rng.Intn(n) {
 	case 0:
@@ -885,6 +942,11 @@ func HostileText(rng *rand.Rand, big bool) (string, string) {
 		return "emoji \U0001F41E " + m + " e\u0301 \ufffd \u2028 \u2029", "unicode-misc"
 	case 10:
 		return "closed", "comment-saying-closed"
+	case 11:
+		// one line, C1 control characters only (NEL, CSI, ST): no byte below 0x20 anywhere
+		return "nel\u0085" + m + " csi\u009b31mred st\u009c end", "c1-controls-one-line"
+	case 12:
+		return "\u0090" + m + " c1 at the edges and in\u0085side\u009f", "c1-controls-at-edges"
 	default:
 		return bigText(rng), "200kB"
 	}
@@ -904,6 +966,7 @@ func Generate(rng *rand.Rand, idx int, p Params) (*Tracker, map[string]int) {
 		ids = IDSpace{}
 	}
 	t := NewTracker(7000+idx, fmt.Sprintf("group%d/proj-%d", idx%3, idx), ids, p.PerPage)
+	t.Index = idx
 	base := 5_000_000
 	if p.SmallIDs {
 		base = 0
@@ -914,12 +977,37 @@ func Generate(rng *rand.Rand, idx int, p Params) (*Tracker, map[string]int) {
 	t.AddUser(&User{ID: base + 3, Username: "bob", Name: "Bob \"the builder\" O'Neil", PublicEmail: ""})
 	t.AddUser(&User{ID: base + 4, Username: "ghost", Name: "Ghost User", PublicEmail: "", Ghost: true})
 	t.AddUser(&User{ID: base + 5, Username: "dana", Name: "Da\u200bna \u202eanad\u202c \u05d3", PublicEmail: "dana@example.com", AvatarURL: "https://gitlab.example/uploads/dana.png"})
+	if idx%4 == 1 {
+		// a display name is free text too
+		t.AddUser(&User{ID: base + 6, Username: "eve", Name: "Eve\tTabbed \u0085 Nel", PublicEmail: "eve@example.com"})
+		stats["users-with-control-characters-in-name"]++
+	}
 	for i := 0; i < p.Issues; i++ {
 		t.Tick(time.Duration(1+rng.Intn(3600)) * time.Second)
 		t.genIssue(rng, p, p.MaxActions, stats)
 	}
+	t.labelStats(stats)
 	t.EndGeneration()
 	return t, stats
+}
+
+// labelStats counts, at the end of the current generation, the issues whose label set is
+// empty although label events were recorded in this generation.
+func (t *Tracker) labelStats(stats map[string]int) {
+	for _, is := range t.Issues {
+		if !is.HasLabelEventsIn(t.Gen) {
+			continue
+		}
+		stats["issues-with-label-events"]++
+		if len(is.Labels) > 0 {
+			continue
+		}
+		if is.Gen == t.Gen {
+			stats["issues-emptied-of-labels-before-their-first-import"]++
+		} else {
+			stats["issues-emptied-of-labels-between-rounds"]++
+		}
+	}
 }
 
 func (t *Tracker) actors() []int {
@@ -942,9 +1030,26 @@ func (t *Tracker) genIssue(rng *rand.Rand, p Params, nAct int, stats map[string]
 		// every big-bodies tracker has a 200 kB description and (below) a 200 kB comment
 		desc, kind = bigText(rng), "200kB"
 	}
+	c1 := p.C1Texts && len(t.Issues) == 0
+	if c1 {
+		title = "nel\u0085in the title \u009b1mcsi " + marker(rng)
+		desc, kind = "description nel\u0085"+marker(rng)+" csi\u009b0m one line", "c1-controls-one-line"
+	}
 	stats["text/"+kind]++
 	is := t.NewIssue(who(), title, desc)
 	stats["issues"]++
+	if c1 {
+		t.Tick(45 * time.Second)
+		t.Comment(is, who(), "comment \u0085nel "+marker(rng)+" osc\u009d0;x\u009c one line")
+		stats["text/c1-controls-one-line"]++
+		stats["comments"]++
+		t.Tick(45 * time.Second)
+		t.ToggleLabel(is, who(), labelNames[len(labelNames)-1-rng.Intn(2)])
+		stats["label-events"]++
+		t.Tick(45 * time.Second)
+		t.SetTitle(is, who(), "retitled \u0085nel "+marker(rng)+" pm\u009e")
+		stats["title-changes"]++
+	}
 	if p.CtlTitles && len(t.Issues) == 1 {
 		// every control-character tracker has at least one title change to such a title
 		t.Tick(60 * time.Second)
@@ -959,6 +1064,29 @@ func (t *Tracker) genIssue(rng *rand.Rand, p Params, nAct int, stats map[string]
 		stats["comments"]++
 	}
 	t.genActions(rng, is, p, 1+rng.Intn(nAct), stats)
+	// Targeted label histories, by position: a third of the issues end this generation with
+	// exactly one label which the next generation removes; a third have labels added and all of
+	// them removed again before anybody imports the issue; the rest is left to chance.
+	switch (t.Index + len(t.Issues) - 1) % 3 {
+	case 0:
+		is.Plan = PlanDropLabelsInGrowth
+		t.Tick(time.Duration(1+rng.Intn(600)) * time.Second)
+		if len(is.Labels) == 0 {
+			t.ToggleLabel(is, who(), labelNames[rng.Intn(len(labelNames))])
+			stats["label-events"]++
+		} else {
+			stats["label-events"] += t.ClearLabels(is, who(), 1)
+		}
+	case 1:
+		is.Plan = PlanEmptiedAtOnce
+		if len(is.LabelEvents) == 0 {
+			t.Tick(time.Duration(1+rng.Intn(600)) * time.Second)
+			t.ToggleLabel(is, who(), labelNames[rng.Intn(len(labelNames))])
+			stats["label-events"]++
+		}
+		t.Tick(time.Duration(1+rng.Intn(600)) * time.Second)
+		stats["label-events"] += t.ClearLabels(is, who(), 0)
+	}
 	return is
 }
 
@@ -1012,7 +1140,12 @@ func (t *Tracker) genActions(rng *rand.Rand, is *Issue, p Params, n int, stats m
 			t.SetDescription(is, who(), desc)
 			stats["description-changes"]++
 		case r < 16:
-			t.ToggleLabel(is, who(), labelNames[rng.Intn(len(labelNames))])
+			if len(is.Labels) > 0 && rng.Intn(2) == 0 {
+				// remove one of the labels the issue carries: label sets become empty again
+				t.ToggleLabel(is, who(), is.Labels[rng.Intn(len(is.Labels))])
+			} else {
+				t.ToggleLabel(is, who(), labelNames[rng.Intn(len(labelNames))])
+			}
 			stats["label-events"]++
 		case r < 19:
 			old := rng.Intn(2) == 0
@@ -1047,10 +1180,23 @@ func (t *Tracker) Grow(rng *rand.Rand, p Params) map[string]int {
 		t.genActions(rng, t.Issues[i], p, 1+rng.Intn(p.GrowAct), stats)
 		stats["issues-touched"]++
 	}
+	// targeted: the issues planned so lose every label they carry (after whatever else happened
+	// to them in this generation): their label set is empty when the next import lists them
+	act := t.actors()
+	for _, is := range t.Issues[:nOld] {
+		if is.Plan != PlanDropLabelsInGrowth {
+			continue
+		}
+		is.Plan = ""
+		t.Tick(time.Duration(1+rng.Intn(3600)) * time.Second)
+		stats["label-events"] += t.ClearLabels(is, act[rng.Intn(len(act))], 0)
+		stats["issues-with-planned-label-removal"]++
+	}
 	for i := 0; i < p.GrowIssues; i++ {
 		t.Tick(time.Duration(1+rng.Intn(3600)) * time.Second)
 		t.genIssue(rng, p, p.GrowAct, stats)
 	}
+	t.labelStats(stats)
 	t.EndGeneration()
 	return stats
 }
